@@ -17,6 +17,8 @@ Ref = z3.DeclareSort("Ref")
 NONE = z3.Const("None!", Ref)
 
 _cache = {}
+# immutable value classes with structural equality: class name -> (sort name, [(field, type string), ...])
+VALUE_CLASSES = {}
 
 
 def AND(*xs):
@@ -148,6 +150,8 @@ def _parse(s):
     if not args:
         if low in ("int", "bool", "str", "float", "bytes", "none", "any"):
             return Ty(low), rest
+        if name in VALUE_CLASSES:
+            return Ty("val", VALUE_CLASSES[name][0]), rest
         return Ty("ref", name), rest
     if low in ("opt", "optional"):
         return Ty("opt", args[0]), rest
@@ -197,7 +201,13 @@ def sort_of(ty):
     if k == "val":
         key = ("val", ty.args[0])
         if key not in _cache:
-            _cache[key] = z3.DeclareSort(ty.args[0])
+            vc = next((v for v in VALUE_CLASSES.values() if v[0] == ty.args[0]), None)
+            if vc is None:
+                _cache[key] = z3.DeclareSort(ty.args[0])
+            else:
+                dt = z3.Datatype(ty.args[0])
+                dt.declare("mk_" + ty.args[0], *[("%s_%s" % (ty.args[0], f), sort_of(t)) for f, t in vc[1]])
+                _cache[key] = dt.create()
         return _cache[key]
     if k == "tuple":
         key = ("tuple", ty.args)
@@ -218,6 +228,26 @@ def sort_of(ty):
     if ty.is_reflike:
         return Ref
     raise ValueError("no sort for %r" % (ty,))
+
+
+def value_class_of_sort(sortname):
+    for cname, (sn, fields) in VALUE_CLASSES.items():
+        if sn == sortname:
+            return cname, fields
+    return None
+
+
+def val_field(ty, term, field):
+    """Accessor of a value-class datatype."""
+    vc = value_class_of_sort(ty.args[0])
+    names = [f for f, _ in vc[1]]
+    dt = sort_of(ty)
+    i = names.index(field)
+    return dt.accessor(0, i)(term), parse(vc[1][i][1])
+
+
+def val_mk(ty, terms):
+    return sort_of(ty).constructor(0)(*terms)
 
 
 def opt_none(ty):
